@@ -15,22 +15,6 @@ import Kanzi.Properties.C12_cm_codec
 namespace Kanzi.BlockGen2
 open Kanzi.Bits Kanzi.TrSmall Kanzi.Block Kanzi.BlockGen
 
-/-! ### the encoder on a block whose transformed length fits the length field -/
-
-theorem encodeWith2_eq (trs : List Tr2) (ent : Ent) (ckw sum obuf : Nat) (b : List Nat) (e : Bits)
-    (F : List Nat × Nat)
-    (hF : F = seqForward2 trs (seqMaxLen (trsOf trs) b.length)
-      (growTo obuf (seqMaxLen (trsOf trs) b.length)) (initDt b) b)
-    (hp32 : F.1.length < 2 ^ 32) (he : ent.enc F.1 = some e) :
-    encodeWith2 trs ent ckw sum obuf b = .ok
-      (natBits (encodeMode (((dataSizeOf F.1.length - 1) &&& 3) <<< 5) F.2 trs.length).1 8 ++
-        extraBits (encodeMode (((dataSizeOf F.1.length - 1) &&& 3) <<< 5) F.2 trs.length).2 ++
-        natBits F.1.length (8 * dataSizeOf F.1.length) ++ natBits sum ckw ++ e) := by
-  unfold encodeWith2
-  simp only [← hF, dataSizeGen_eq _ hp32]
-  have h4 := dataSizeOf_le _ hp32
-  rw [if_neg (by omega), if_neg (by omega), he]
-
 /-- the exact-consumption law of an entropy codec at ONE block (of bytes, 1..N of them) -/
 def EntLawAt (ent : Ent) (N : Nat) (y : List Nat) : Prop :=
   IsBlock N y → y ≠ [] →
@@ -39,122 +23,114 @@ def EntLawAt (ent : Ent) (N : Nat) (y : List Nat) : Prop :=
 theorem entLawAt_of_law (ent : Ent) (N : Nat) (h : EntLaw (IsBlock N) ent) (y : List Nat) : EntLawAt ent N y :=
   fun hy _ => h y hy
 
-theorem mode0_false (x : Nat) : x = ((if (false : Bool) = true then 0x80 else 0) ||| x) := by simp
+/-! ### the block handed to the entropy coder -/
+
+/-- what the sequence and the bound of fix F43 (block size `B` in the ctx) hand to the entropy coder: a
+non-empty block of bytes within the decoder's bound, with well-formed skip flags, from which the inverse
+sequence restores the block -/
+theorem postOf_spec (ks : List Kind) (hn : ks.length ≤ 8) (B obuf : Nat) (b : List Nat)
+    (hb : ∀ x ∈ b, x < 256) (hb0 : 0 < b.length) (hB : b.length ≤ B) (hmax : B ≤ 2 ^ 30) :
+    (postOf (kindTrs ks) (some B) obuf b).2 < 256 ∧
+    ((kindTrs ks).length ≤ 4 → (postOf (kindTrs ks) (some B) obuf b).2 % 16 = 15) ∧
+    IsBlock (maxTransformLength B) (postOf (kindTrs ks) (some B) obuf b).1 ∧
+    (postOf (kindTrs ks) (some B) obuf b).1 ≠ [] ∧
+    ∀ dl, taskBlockLength B ≤ dl →
+      seqInverse (invStages (trsOf (kindTrs ks)) dl) (postOf (kindTrs ks) (some B) obuf b).2
+        (postOf (kindTrs ks) (some B) obuf b).1 = .ok b := by
+  have hne : b ≠ [] := fun h => by rw [h] at hb0; exact Nat.lt_irrefl 0 hb0
+  have htrs : kindTrs ks = ltrs (kindLtrs ks) := (ltrs_kindLtrs ks).symm
+  have hlen8 : (kindLtrs ks).length ≤ 8 := by simp only [kindLtrs, List.length_map]; exact hn
+  have hlaws := kindLtrs_law ks
+  have hlim : runG (kindLtrs ks) b.length ≤ lawLim := runG_le_lawLim ks b.length hn (by omega)
+  have hbB : b.length ≤ maxTransformLength B := le_maxTransformLength b.length B hB (by omega)
+  have hreq0 : 0 < seqMaxLen (trsOf (kindTrs ks)) b.length := by
+    rw [htrs, seqMaxLen_ltrs]
+    have := le_runMax (kindLtrs ks) b.length
+    omega
+  have hl0 : 0 < growTo obuf (seqMaxLen (trsOf (kindTrs ks)) b.length) := by
+    unfold growTo; split <;> omega
+  unfold postOf
+  generalize hFdef : forwardOf (kindTrs ks) obuf b = F
+  have hrt : ∀ dl, b.length ≤ dl →
+      seqInverse (invStages (trsOf (kindTrs ks)) dl) F.2 F.1 = .ok b ∧ Bytes F.1 ∧
+        F.1.length ≤ runG (kindLtrs ks) b.length ∧ F.1 ≠ [] := by
+    intro dl hdl
+    have := seq2_roundtrip lawLim (seqMaxLen (trsOf (kindTrs ks)) b.length)
+      (growTo obuf (seqMaxLen (trsOf (kindTrs ks)) b.length)) (max dl (seqMaxLen (trsOf (kindTrs ks)) dl))
+      (initDt b) dl (kindLtrs ks) b hlaws hlen8 hreq0 hl0 hb hdl
+      (by rw [htrs, seqMaxLen_ltrs]; omega) hlim
+    rw [← htrs] at this
+    have hF : forwardOf (kindTrs ks) obuf b = seqForward2 (kindTrs ks) (seqMaxLen (trsOf (kindTrs ks)) b.length)
+      (growTo obuf (seqMaxLen (trsOf (kindTrs ks)) b.length)) (initDt b) b := rfl
+    rw [← hF, hFdef] at this
+    obtain ⟨h1, h2, h3, h4⟩ := this
+    exact ⟨h1, h2, h3, h4 hne⟩
+  obtain ⟨hflt, hflow⟩ := seqForward2_flags_shape (kindTrs ks) (seqMaxLen (trsOf (kindTrs ks)) b.length)
+    (growTo obuf (seqMaxLen (trsOf (kindTrs ks)) b.length)) (initDt b) b
+    (by rw [htrs]; simp only [ltrs, List.length_map]; exact hlen8)
+  have hF : forwardOf (kindTrs ks) obuf b = seqForward2 (kindTrs ks) (seqMaxLen (trsOf (kindTrs ks)) b.length)
+    (growTo obuf (seqMaxLen (trsOf (kindTrs ks)) b.length)) (initDt b) b := rfl
+  rw [← hF, hFdef] at hflt hflow
+  unfold fallback
+  have hml : maxLengthOf (some B) = maxTransformLength B := rfl
+  rw [hml]
+  split
+  · -- stored untransformed
+    exact ⟨by simp, fun _ => by simp, ⟨hb, hbB⟩, hne, fun dl _ => seqInverse_ff _ b⟩
+  · rename_i hnf
+    obtain ⟨_, hFb, hFl, hFne⟩ := hrt b.length (Nat.le_refl _)
+    have hpm : F.1.length ≤ maxTransformLength B := by
+      by_cases h1 : F.1.length ≤ maxTransformLength B
+      · exact h1
+      · have hreq : seqMaxLen (trsOf (kindTrs ks)) b.length ≤ maxTransformLength B := by
+          by_cases h2 : seqMaxLen (trsOf (kindTrs ks)) b.length ≤ maxTransformLength B
+          · exact h2
+          · exact absurd ⟨by omega, by omega⟩ hnf
+        have := runG_le_runMax lawLim (kindLtrs ks) hlaws b.length b.length (Nat.le_refl _) hlim
+        rw [htrs, seqMaxLen_ltrs] at hreq
+        omega
+    refine ⟨hflt, fun h4 => flags_low_nibble _ hflt _ h4 hflow, ⟨hFb, hpm⟩, hFne, fun dl hdl => ?_⟩
+    exact (hrt dl (Nat.le_trans (Nat.le_trans hB (taskBlockLength_ge B)) hdl)).1
 
 /-! ### decode ∘ encode, non-copy blocks -/
 
 theorem decode_encode_noncopy2 (c : Cfg2) (ks : List Kind) (hc : c.trs = kindTrs ks) (hn : ks.length ≤ 8)
-    (B obuf : Nat) (b : List Nat)
-    (hent : EntLawAt c.ent (maxTransformLength B) (postBlock c.trs obuf b))
-    (hpost : runG (kindLtrs ks) B ≤ maxTransformLength B)
-    (hb : ∀ x ∈ b, x < 256) (hb0 : 0 < b.length) (hB : b.length ≤ B) :
-    ∃ p, encodeWith2 c.trs c.ent (ckWidth c.ck) (checksum c.ck b) obuf b = .ok p ∧
+    (B obuf : Nat) (b : List Nat) (hbs : c.bs = some B)
+    (hent : EntLawAt c.ent (maxTransformLength B) (postBlock c.trs c.bs obuf b))
+    (hb : ∀ x ∈ b, x < 256) (hb0 : 0 < b.length) (hB : b.length ≤ B) (hmax : B ≤ 2 ^ 30) :
+    ∃ p, encodeWith2 c.trs c.ent (ckWidth c.ck) (checksum c.ck b) c.bs obuf b = .ok p ∧
       decodeTaskGen c.toCfg B p = ⟨b.length, .ok b⟩ ∧ (c.ent = noneEnt → FrameFit B p) := by
-  have hne : b ≠ [] := fun h => by rw [h] at hb0; exact Nat.lt_irrefl 0 hb0
-  have htrs : c.trs = ltrs (kindLtrs ks) := by rw [ltrs_kindLtrs]; exact hc
-  have hlen8 : (kindLtrs ks).length ≤ 8 := by simp only [kindLtrs, List.length_map]; exact hn
-  have hlaws := kindLtrs_law ks
-  have hgm : ∀ l ∈ kindLtrs ks, ∀ a b, a ≤ b → l.g a ≤ l.g b := fun l hl => (hlaws l hl).gmono
-  have hmt : maxTransformLength B ≤ 2 ^ 30 := by unfold maxTransformLength; omega
-  have hlim : runG (kindLtrs ks) b.length ≤ lawLim := by
-    have := runG_mono (kindLtrs ks) hgm b.length B hB
-    unfold lawLim; omega
-  -- sizes of the forward pass
-  have hreq0 : 0 < seqMaxLen (trsOf c.trs) b.length := by
-    rw [htrs, seqMaxLen_ltrs]
-    have := le_runMax (kindLtrs ks) b.length
-    omega
-  have hl0 : 0 < growTo obuf (seqMaxLen (trsOf c.trs) b.length) := by
-    unfold growTo; split <;> omega
-  generalize hFdef : seqForward2 c.trs (seqMaxLen (trsOf c.trs) b.length)
-    (growTo obuf (seqMaxLen (trsOf c.trs) b.length)) (initDt b) b = F
-  -- the round trip of the sequence, for every destination size of the decoder
-  have hrt : ∀ dl, b.length ≤ dl →
-      seqInverse (invStages (trsOf c.trs) dl) F.2 F.1 = .ok b ∧ Bytes F.1 ∧
-        F.1.length ≤ runG (kindLtrs ks) b.length ∧ F.1 ≠ [] := by
-    intro dl hdl
-    have := seq2_roundtrip lawLim (seqMaxLen (trsOf c.trs) b.length)
-      (growTo obuf (seqMaxLen (trsOf c.trs) b.length)) (max dl (seqMaxLen (trsOf c.trs) dl)) (initDt b) dl
-      (kindLtrs ks) b hlaws hlen8 hreq0 hl0 hb hdl
-      (by rw [htrs, seqMaxLen_ltrs]; omega) hlim
-    rw [← htrs, hFdef] at this
-    obtain ⟨h1, h2, h3, h4⟩ := this
-    exact ⟨h1, h2, h3, h4 hne⟩
-  obtain ⟨_, hFb, hFl, hFne⟩ := hrt b.length (Nat.le_refl _)
-  have hpm : F.1.length ≤ maxTransformLength B := by
-    have := runG_mono (kindLtrs ks) hgm b.length B hB
-    omega
-  have hpost0 : F.1.length ≠ 0 := fun h => hFne (List.eq_nil_of_length_eq_zero h)
-  have hpost32 : F.1.length < 2 ^ 32 := by omega
-  obtain ⟨e, he, hdec⟩ : ∃ e, c.ent.enc F.1 = some e ∧
-      ∀ rest : Bits, c.ent.dec F.1.length (e ++ rest) = some (F.1, rest) := by
-    have := hent
-    unfold postBlock at this
-    rw [hFdef] at this
-    exact this ⟨hFb, hpm⟩ hFne
-  -- flags
-  obtain ⟨hflt, hflow⟩ := seqForward2_flags_shape c.trs (seqMaxLen (trsOf c.trs) b.length)
-    (growTo obuf (seqMaxLen (trsOf c.trs) b.length)) (initDt b) b
-    (by rw [htrs]; simp only [ltrs, List.length_map]; exact hlen8)
-  rw [hFdef] at hflt hflow
-  have hds1 := dataSizeOf_pos F.1.length
-  have hfit : c.ent = noneEnt → FrameFit B
-      (natBits (encodeMode (((dataSizeOf F.1.length - 1) &&& 3) <<< 5) F.2 c.trs.length).1 8 ++
-        extraBits (encodeMode (((dataSizeOf F.1.length - 1) &&& 3) <<< 5) F.2 c.trs.length).2 ++
-        natBits F.1.length (8 * dataSizeOf F.1.length) ++ natBits (checksum c.ck b) (ckWidth c.ck) ++ e) := by
-    intro hne'
-    rw [hne'] at he
-    have hel : e.length = 8 * F.1.length := by
-      have : some (EntSmall.nullEncode F.1) = some e := he
-      injection this with this
-      rw [← this, EntSmall.nullEncode_eq, Block.ofBytes_length]
-    have hex := extraBits_length (encodeMode (((dataSizeOf F.1.length - 1) &&& 3) <<< 5) F.2 c.trs.length).2
-    have hck := ckWidth_le c.ck
-    have hds4' := dataSizeOf_le _ hpost32
-    unfold FrameFit
-    simp only [List.length_append, natBits_length, maxFrameBits]
-    omega
-  refine ⟨_, encodeWith2_eq c.trs c.ent _ _ obuf b e F hFdef.symm hpost32 he, ?_, hfit⟩
-  have hds4 := dataSizeOf_le _ hpost32
-  have hpow := lt_pow_dataSizeOf F.1.length
-  have hm := modeOK_encodeMode false (dataSizeOf F.1.length) F.2 c.trs.length hds1 hds4 hflt
-    (fun h4 => flags_low_nibble _ hflt _ h4 hflow)
-  rw [← mode0_false] at hm
-  have hsum : checksum c.ck b < 2 ^ ckWidth c.toCfg.ck := checksum_lt c.ck b
+  obtain ⟨hflt, hlow, hblk, hPne, hinv⟩ := postOf_spec ks hn B obuf b hb hb0 hB hmax
+  rw [← hc, ← hbs] at hflt hlow hblk hPne hinv
+  unfold postBlock at hent
+  obtain ⟨e, he, hdec⟩ := hent hblk hPne
   have hcl : c.toCfg.trs.length = c.trs.length := by simp [Cfg2.toCfg, trsOf]
-  have hpro := decodeTaskGen_prologue c.toCfg B false _ _ _ _ _ e _ hm hds1 hflt hpow hpost0 hpm hsum rfl
-  simp only [show c.toCfg.ck = c.ck from rfl] at hpro
-  rw [hpro]
-  simp only [Bool.false_eq_true, if_false]
-  -- the body
-  have hdl := Nat.le_trans (Nat.le_trans hB (taskBlockLength_ge B)) (decDstLen_ge B
-    (natBits (encodeMode (((dataSizeOf F.1.length - 1) &&& 3) <<< 5) F.2 c.trs.length).1 8 ++
-      extraBits (encodeMode (((dataSizeOf F.1.length - 1) &&& 3) <<< 5) F.2 c.trs.length).2 ++
-      natBits F.1.length (8 * dataSizeOf F.1.length) ++ natBits (checksum c.ck b) (ckWidth c.ck) ++ e))
-  generalize decDstLen B _ = dl at hdl ⊢
-  generalize List.replicate _ false = pad
-  unfold decodeBody
-  show (match c.ent.dec F.1.length (e ++ pad) with
-    | none => DecRes.fail Err.entropy
-    | some d =>
-      match seqInverse (invStages (trsOf c.trs) dl) F.2 (padZero F.1.length d.1) with
-      | .error _ => DecRes.fail Err.inverse
-      | .ok out =>
-        if out.length > dl then DecRes.fail Err.inverse
-        else if ckWidth c.ck ≠ 0 ∧ checksum c.ck out ≠ checksum c.ck b then ⟨out.length, .error Err.crc⟩
-        else ⟨out.length, .ok out⟩) = _
-  rw [hdec pad]
-  simp only [padZero_of_length _ _ rfl]
-  rw [(hrt dl hdl).1]
-  simp only
-  rw [if_neg (by omega), if_neg (by simp)]
+  obtain ⟨p, hp, hd⟩ := decode_encodeOf c.toCfg B b (postOf c.trs c.bs obuf b) e hflt
+    (by rw [hcl]; exact hlow) hPne hblk.2 he hdec hinv hB
+  rw [hcl] at hp
+  refine ⟨p, hp, hd, fun hne' => ?_⟩
+  obtain ⟨e', he', h8, hle⟩ := encodeOf_shape _ _ _ _ _ _ _ hp
+  have he'' : c.ent.enc (postOf c.trs c.bs obuf b).1 = some e' := he'
+  rw [hne'] at he''
+  have he' := he''
+  have hel : e'.length = 8 * (postOf c.trs c.bs obuf b).1.length := by
+    have : some (EntSmall.nullEncode (postOf c.trs c.bs obuf b).1) = some e' := he'
+    injection this with this
+    rw [← this, EntSmall.nullEncode_eq, Block.ofBytes_length]
+  have hck := ckWidth_le c.ck
+  have hpm := hblk.2
+  have hc' : ckWidth c.toCfg.ck = ckWidth c.ck := rfl
+  have hmt : maxTransformLength B ≤ 2 ^ 30 := by unfold maxTransformLength; omega
+  unfold FrameFit
+  simp only [maxFrameBits]
+  omega
 
-/-- H_codec for every chain of modelled transforms: for a block of 1..B bytes the encoding task succeeds
-(whatever the length `obuf` of the task's output buffer) and the decoding task returns the block -/
+/-- H_codec for every chain of modelled transforms: for a block of 1..B bytes the encoding task of a Writer
+with block size `B` succeeds (whatever the length `obuf` of the task's output buffer) and the decoding task
+returns the block -/
 theorem block_roundtrip2 (c : Cfg2) (ks : List Kind) (hc : c.trs = kindTrs ks) (hn : ks.length ≤ 8)
-    (B obuf : Nat) (b : List Nat)
-    (hent : EntLawAt c.ent (maxTransformLength B) (postBlock c.trs obuf b))
-    (hpost : runG (kindLtrs ks) B ≤ maxTransformLength B)
+    (B obuf : Nat) (b : List Nat) (hbs : c.bs = some B)
+    (hent : EntLawAt c.ent (maxTransformLength B) (postBlock c.trs c.bs obuf b))
     (hb : ∀ x ∈ b, x < 256) (hb0 : 0 < b.length) (hB : b.length ≤ B) (hmax : B ≤ 2 ^ 30) :
     ∃ p, encodeTaskGen2 c obuf b = .ok p ∧ decodeTaskGen2 c B p = ⟨b.length, .ok b⟩ ∧
       (c.ent = noneEnt → FrameFit B p) := by
@@ -163,8 +139,11 @@ theorem block_roundtrip2 (c : Cfg2) (ks : List Kind) (hc : c.trs = kindTrs ks) (
   · rw [if_pos hcp]
     obtain ⟨p, hp, hd⟩ := decode_encode_copy c.toCfg B b hb hb0 hB hmax
     refine ⟨p, hp, hd, fun _ => ?_⟩
-    obtain ⟨e, he, h8, hle⟩ := encodeWith_shape _ _ _ _ _ _ _ hp
-    rw [seqForward_null b hb0] at he
+    obtain ⟨e, he, h8, hle⟩ := encodeWith_shape _ _ _ _ _ _ _ _ hp
+    have hfb : (fallback c.toCfg.bs (seqMaxLen [nullTr] b.length) b
+        (seqForward (fwdStages [nullTr] b.length) b)).1 = b := by
+      rcases fallback_null c.toCfg.bs (seqMaxLen [nullTr] b.length) b hb0 with h' | h' <;> rw [h']
+    rw [hfb] at he
     have hel : e.length = 8 * b.length := by
       have : some (EntSmall.nullEncode b) = some e := he
       injection this with this
@@ -172,7 +151,7 @@ theorem block_roundtrip2 (c : Cfg2) (ks : List Kind) (hc : c.trs = kindTrs ks) (
     have hck := ckWidth_le c.ck
     exact frameFit_of_le B b.length p h8 hB hmax (by show p.length ≤ 48 + 64 + 8 * b.length; have : ckWidth c.toCfg.ck = ckWidth c.ck := rfl; omega)
   · rw [if_neg hcp]
-    exact decode_encode_noncopy2 c ks hc hn B obuf b hent hpost hb hb0 hB
+    exact decode_encode_noncopy2 c ks hc hn B obuf b hbs hent hb hb0 hB hmax
 
 /-! ### entropy codecs -/
 
